@@ -108,8 +108,8 @@ impl Clone for Response {
 
 // ---------- Api ----------
 pub uninterp spec fn addr_valid(s: Seq<char>) -> bool;   // what the chain's address validation accepts
-// well-formed account / contract addresses of the chain (fixed format). Validated strings, transaction senders and the
-// addresses of contracts that answer queries are well-formed; arbitrary caller-supplied strings are not assumed to be.
+// well-formed CONTRACT addresses of the chain (fixed format, hence fixed length). Only the addresses of contracts that answer
+// smart queries are assumed well-formed; caller-supplied strings - even ones that pass addr_validate - are not.
 pub uninterp spec fn is_address(s: Seq<char>) -> bool;
 pub struct Api { pub _a: Ghost<int> }
 impl Api {
@@ -117,6 +117,5 @@ impl Api {
     #[verifier::external_body]
     pub fn addr_validate(&self, human: &str) -> (r: StdResult<Addr>)
         ensures r is Ok <==> addr_valid(human@), r is Ok ==> r->Ok_0@ == human@,
-            r is Ok ==> is_address(human@),
     { unimplemented!() }
 }
